@@ -197,7 +197,16 @@ class S(object):
     @vsc.dynamic_constraint
     def h(self):
         self.b < 3
+
+@vsc.randobj
+class H(object):
+    def __init__(self):
+        self.s = vsc.rand_attr(S())
+        self.l = vsc.rand_list_t(S(), 0)
+        self.l.append(S())
+        self.l.append(S())
 """
+SOFTDYN_VIA = {"attr": "it.s", "elem": "it.l[1]", "elem0": "it.l[0]"}
 
 
 def gen_softdyn_inline(d, must_conflict=False):
@@ -223,13 +232,26 @@ def gen_softdyn_inline(d, must_conflict=False):
 def softdyn_cases(d):
     v0 = d.randint(0, 15)
     v1 = d.choice([v for v in range(16) if v != v0])
-    return {"softdyn": True, "v0": v0, "v1": v1, "history": [gen_softdyn_inline(d) for _ in range(d.randint(1, 4))],
+    case = {"softdyn": True, "v0": v0, "v1": v1, "history": [gen_softdyn_inline(d) for _ in range(d.randint(1, 4))],
             "final": gen_softdyn_inline(d, must_conflict=True), "seed": d.seed()}
+    if d.chance(50):
+        # the object is a sub-object / a list element of a holder; calls are made on the holder and the blocks are
+        # referenced through the attribute or the subscript
+        case["via"] = d.choice(["attr", "elem", "elem0"])
+    return case
 
 
-def softdyn_call(o, items, seed):
+def softdyn_call(o, items, seed, via=None):
     vsc = import_vsc()
     o.set_randstate(flat.mk_randstate(seed))
+    if via:
+        # literal source, evaluated in natural order like a user's file
+        lines = ["with o.randomize_with() as it:"]
+        tgt = SOFTDYN_VIA[via]
+        for item in items:
+            lines.append("    vsc.soft(%s.a == %d)" % (tgt, item[1]) if item[0] == "soft" else "    %s.%s()" % (tgt, item[0]))
+        exec(compile("\n".join(lines), "<pvs-c06-softdyn-call>", "exec"), {"o": o, "vsc": vsc})
+        return
     with o.randomize_with() as it:
         for item in items:
             if item[0] == "soft":
@@ -249,7 +271,9 @@ def run_softdyn(case):
     if not case.get("final") or not all(isinstance(i, list) and i and i[0] in ("p0", "p1", "soft", "h") for c_ in case["history"] + [case["final"]] for i in c_):
         return [], info
     src = SOFTDYN_SRC % {"v0": case["v0"], "v1": case["v1"]}
-    text = src + "# history (inline blocks of earlier calls): %s\n# final call: %s (seed %d)" % (cjson(case["history"]), cjson(case["final"]), case["seed"])
+    text = src + "# history (inline blocks of earlier calls): %s\n# final call: %s (seed %d)%s" % (
+        cjson(case["history"]), cjson(case["final"]), case["seed"],
+        ("\n# calls are made on H(); blocks and softs are written through %s" % SOFTDYN_VIA.get(case.get("via"), "?")) if case.get("via") else "")
 
     def Vs(kind, detail, extra):
         return {"property": PROPERTY, "kind": kind, "detail": detail, "case": case, "text": text + "\n# " + extra}
@@ -257,13 +281,19 @@ def run_softdyn(case):
     try:
         ns = {"vsc": vsc, "enum": _enum}
         exec(compile(src, "<pvs-c06-softdyn>", "exec"), ns)
-        fresh, used = ns["S"](), ns["S"]()
+        via = case.get("via")
+        if via is not None and via not in SOFTDYN_VIA:
+            return [], info
+        fresh, used = (ns["H"](), ns["H"]()) if via else (ns["S"](), ns["S"]())
         for k, items in enumerate(case["history"]):
-            softdyn_call(used, items, case["seed"] + 1 + k)
+            softdyn_call(used, items, case["seed"] + 1 + k, via)
             info["calls"] += 1
-        softdyn_call(fresh, case["final"], case["seed"])
-        softdyn_call(used, case["final"], case["seed"])
+        softdyn_call(fresh, case["final"], case["seed"], via)
+        softdyn_call(used, case["final"], case["seed"], via)
         info["calls"] += 2
+        if via:
+            pick = {"attr": lambda h: h.s, "elem": lambda h: h.l[1], "elem0": lambda h: h.l[0]}[via]
+            fresh, used = pick(fresh), pick(used)
     except Exception as e:
         ei = flat.defuse(e)
         reset_library()
@@ -499,6 +529,7 @@ def body(case, acc):
     if case.get("softdyn"):
         acc.case(case, bool(info.get("conflict")) and len(case["history"]) >= 2, sample=SOFTDYN_SRC % {"v0": case["v0"], "v1": case["v1"]})
         acc.label("dynamic blocks with soft bodies (history invariance)")
+        acc.label("soft dynamic blocks referenced " + ("directly" if not case.get("via") else "through " + SOFTDYN_VIA.get(case["via"], "?")))
         return vios
     nt = info.get("ninst", 0) >= 2 and info.get("kdiff") and info.get("multi_inline") and info.get("dyn_op")
     acc.case(case, bool(nt), sample=text_of(case))
